@@ -889,4 +889,30 @@ theorem script_history_refines_vec (sz n : Nat) (cs : List (BName × Nat × List
 example : [((BName.new, 0, [0]) : BName × Nat × List Nat), (.push, 9, [0, 7]), (.len, 9, [0])].map callOp
     = [Op.new 0, .push 0 7, .len 0].map some := by decide
 
+/-- **what a script sees is what the list returned** — the result half without a
+    hypothesis on the result. After ANY history (all element sizes, all numbers
+    of variables), for every listed binding and all actual parameters below
+    2^64: the conversion the binding applies to the result of the operation it
+    performs changes nothing — a length, capacity or index goes through `as u64`
+    and is below 2^64 in every reachable state (`len ≤ cap ≤ usize::MAX`, an
+    index is below the length: `observers_small`), every other result (unit,
+    bool, an element — which may be any value, e.g. an `f64` bit pattern —, a
+    list) is handed back as it is (`retFits`). -/
+theorem script_results_come_back_unchanged (sz n : Nat) (ops : List Op) :
+    ∀ b ∈ Gen.ListBind.bindings, b.name ≠ .other →
+      ∀ (d : Nat) (actuals : List Nat) (op : Op), (∀ v ∈ actuals, v < 2 ^ 64) →
+        b.toOp d actuals = some op →
+        b.convOut (step sz (runSt sz (St.init n) ops) op).1 = (step sz (runSt sz (St.init n) ops) op).1 :=
+  fun b hb hn d actuals op h hop =>
+    ok_result b (bindings_pass_the_checker b hb) hn (Inv_runSt ops (Inv_init sz n)) d actuals op h hop
+
+/-- not vacuous: an element read by `get` may be ≥ 2^64 (an `f64`), which is why
+    `get`'s result must not go through a cast at all — the checker rejects it — and
+    a length through `u8` does change a result -/
+example : Binding.ok ⟨.get, 3, .listGet, [(0, none), (1, none), (2, none)], .mapCast .u64⟩ = false ∧
+    (⟨.get, 3, .listGet, [(0, none), (1, none), (2, none)], .mapCast .u64⟩ : Binding).convOut
+      (step 8 (runSt 8 (St.init 1) [.fromVec 0 [f64Base + 5]]) (.get 0 0)).1
+      ≠ (step 8 (runSt 8 (St.init 1) [.fromVec 0 [f64Base + 5]]) (.get 0 0)).1 ∧
+    (⟨.len, 1, .len, [(0, none)], .cast .u8⟩ : Binding).convOut (.nat 261) = .nat 5 := by decide
+
 end RotoV.C15
